@@ -18,6 +18,7 @@ package fastgo
 
 import (
 	"strconv"
+	"strings"
 
 	"github.com/cloudwego/thriftgo/generator/golang"
 	"github.com/cloudwego/thriftgo/parser"
@@ -310,8 +311,26 @@ func genFastReadList(w *codewriter, rwctx *golang.ReadWriteContext, varname stri
 
 	w.f("%s = make(%s, %s)", varname, rwctx.TypeName.Deref(), tmpsize)
 	w.f("for %s := 0; %s < %s; %s++ {", tmpi, tmpi, tmpsize, tmpi)
-	genFastReadAny(w, rwctx.ValCtx, varname+"["+tmpi+"]", depth+1)
+	if elemByValue(rwctx) {
+		// value_type_in_container: the element is the struct itself
+		elem := varname + "[" + tmpi + "]"
+		w.f("%s.InitDefault()", elem)
+		w.f("l, err = %s.FastRead(b[off:])", elem)
+		w.f("off += l")
+		w.f("if err != nil { goto ReadFieldError }")
+	} else {
+		genFastReadAny(w, rwctx.ValCtx, varname+"["+tmpi+"]", depth+1)
+	}
 	w.f("}")
+}
+
+// elemByValue reports whether the container stores its struct-like elements
+// (list/set elements, map values) by value, as value_type_in_container asks.
+func elemByValue(rwctx *golang.ReadWriteContext) bool {
+	if !rwctx.ValCtx.Type.Category.IsStructLike() {
+		return false
+	}
+	return !strings.HasSuffix(string(rwctx.TypeName), "*"+string(rwctx.ValCtx.TypeName.Deref()))
 }
 
 func genFastReadMap(w *codewriter, rwctx *golang.ReadWriteContext, varname string, depth int) {
@@ -361,6 +380,10 @@ func genFastReadMap(w *codewriter, rwctx *golang.ReadWriteContext, varname strin
 		genFastReadAny(w, rwctx.KeyCtx, tmpk, depth+1)
 	}
 	genFastReadAny(w, rwctx.ValCtx, tmpv, depth+1)
-	w.f("%s[%s] = %s", varname, tmpk, tmpv)
+	if elemByValue(rwctx) {
+		w.f("%s[%s] = *%s", varname, tmpk, tmpv)
+	} else {
+		w.f("%s[%s] = %s", varname, tmpk, tmpv)
+	}
 	w.f("}")
 }
